@@ -48,15 +48,29 @@ def run(ck, facts):
             accepted.add(m.group(1))
     ck.expect(accepted >= {"attr", "abi_rename", "demo", "rust_link", "out", "opaque", "opaque_mut"}, "R1", "ast/accepted-set", str(sorted(accepted)), "could not find the attribute names the AST accepts: %s" % sorted(accepted), None)
     ex = mac.fn("diplomat::AttributeInfo::extract")
-    # classify literals compared with `seg`: those in the last `else { panic }` are rejected
+    # classify the attribute names `extract` recognises: literals compared with the path segment (`seg == "x"` chains) and string
+    # patterns of a match on the segment's text (`match seg.to_string().as_str() { "x" | "y" => .. }`); those whose branch panics are rejected
     seg_lits = set(lits_compared_with(C.fn_body(ex), "seg"))
-    # literals whose branch panics
     panicking = set()
     for n in C.walk(C.fn_body(ex)):
         if n.get("k") == "if":
             ls = lits_compared_with(n["c"], "seg")
             if ls and C.panic_macro_of(n["t"]):
                 panicking |= set(ls)
+        if n.get("k") == "match" and any(x.get("k") == "local" and x.get("n") in ("seg", "segment", "name") for x in C.walk(n["s"])):
+            for arm in n["arms"]:
+                ls = []
+
+                def plits(p_):
+                    if isinstance(p_, dict):
+                        if p_.get("k") == "lit" and p_.get("t") == "str":
+                            ls.append(p_["v"])
+                        for q in (p_.get("alts") or []) + ([p_["sub"]] if isinstance(p_.get("sub"), dict) else []):
+                            plits(q)
+                plits(arm["pat"])
+                seg_lits |= set(ls)
+                if ls and (C.panic_macro_of(arm["b"]) or C.diverges(arm["b"])):
+                    panicking |= set(ls)
     handled = seg_lits - panicking
     for a in sorted(accepted - {"bridge", "config"}):
         ck.expect(a in handled, "R1", "macro-accepts/" + a, "", "the AST gives meaning to #[diplomat::%s] but the bridge macro panics on it (\"Only #[diplomat::opaque] and #[diplomat::rust_link] are supported\")" % a, C.loc(ex))
